@@ -477,7 +477,7 @@ def run_twin_case(case, prog_a, opts_a, prog_b, opts_b, vals=None, chests=None, 
             except lang.Unspec:
                 continue
             exp = expected_of(it)
-            mm, c, nz = compare_outputs(exp, oa, skip=set(va))
+            mm, c, nz = compare_outputs(exp, oa, skip=set(va) | set(case.get("skip_names") or ()))
             if it.enables:
                 mm2, c2 = compare_entities(exa, sa, it)
                 mm += mm2
@@ -502,7 +502,7 @@ def run_twin_case(case, prog_a, opts_a, prog_b, opts_b, vals=None, chests=None, 
             ld = diff_observations(loa, lob, rename=rename, strict=strict_names)
         else:
             it = lang.Interp(prog_a, va, chest=chest, files=files).run()
-            ld = compare_outputs(expected_of(it), loa, skip=set(va))[0]
+            ld = compare_outputs(expected_of(it), loa, skip=set(va) | set(case.get("skip_names") or ()))[0]
             if it.enables:
                 ld += compare_entities(exa, la, it)[0]
     except Exception as exn:  # noqa: BLE001
